@@ -10,7 +10,7 @@ from symx.run import Obligation
 from symx.core import SymNum, isna
 from oracles import bms as ref
 from .common import classes, col, cell_same, same_multiset, same_steps, MapSnap
-from .c04 import layout, lane_channels, LAYOUTS
+from .c04 import layout, ref_layout, lane_channels, LAYOUTS
 
 LINE = re.compile(rb"^#\d{3}[0-9A-Z]{2}:([0-9A-Za-z~]{2})*$")
 
@@ -58,7 +58,7 @@ def chart(ctx, grid, hits, holds, samples=True, bpm_order=None):
 
 def check_written(ctx, label, m, out, lay, hits, holds, grid, tol=None, default_id=b"01"):
     lines = out.split(b"\r\n")
-    d = ref.parse(ctx, lines, layout(lay))
+    d = ref.parse(ctx, lines, ref_layout(lay))
     ctx.check(label + ".syntax.no-ill-formed-line", not d["ill_formed"], note="%r" % d["ill_formed"][:2])
     data_lines = [l for l in lines if re.match(rb"^#\d{3}", l)]
     ctx.check(label + ".syntax.data-line-shape", all(LINE.match(l) for l in data_lines), note="%r" % [l for l in data_lines if not LINE.match(l)][:2])
@@ -157,7 +157,7 @@ def ob_many_tempos(n, ctx):
     m.samples = {b"01": b"kick.wav"}
     out = m.write()
     lines = out.split(b"\r\n")
-    d = ref.parse(ctx, lines, layout("BME"))
+    d = ref.parse(ctx, lines, ref_layout("BME"))
     ctx.check("many-tempos.syntax", not d["ill_formed"], note="%r" % d["ill_formed"][:2])
     data_lines = [l for l in lines if re.match(rb"^#\d{3}", l)]
     ctx.check("many-tempos.data-line-shape", all(LINE.match(l) for l in data_lines), note="%r" % [l for l in data_lines if not LINE.match(l)][:2])
